@@ -459,3 +459,25 @@ func Parallel(workers, n int, fn func(w, i int)) {
 }
 
 func Hex(b []byte) string { return hex.EncodeToString(b) }
+
+// AnyCell reports whether some observed cell satisfies pred.
+func (r *Run) AnyCell(pred func(string) bool) bool {
+	r.mu.Lock()
+	defer r.mu.Unlock()
+	for k := range r.cells {
+		if pred(k) {
+			return true
+		}
+	}
+	return false
+}
+
+// RequireSub makes the run inconclusive unless some cell name contains sub.
+func (r *Run) RequireSub(sub string) {
+	if r.OnlyPhase != "" {
+		return
+	}
+	if !r.AnyCell(func(k string) bool { return strings.Contains(k, sub) }) {
+		r.Inconclusive("coverage floor missed: no cell containing " + sub + " observed")
+	}
+}
